@@ -20,7 +20,13 @@ CONFIG = dict(
                 "events too far ahead, failing checks/Process) are given to 8-24 FRESH processors each, and every processor is stopped right "
                 "after its last Enqueue (drawn per processor: immediately / after one runtime.Gosched / after a 1-400 us sleep / Gosched "
                 "between Start and the first Enqueue), typically before the worker goroutines spawned by Start() ran at all, so the batches "
-                "are handled inside Stop() or cancelled by it."),
+                "are handled inside Stop() or cancelled by it. "
+                "TestC15Burst: a burst of 2-16 batches (1-4 events: roots, children, copies of earlier events, events whose parent is never "
+                "supplied, failing checks) is enqueued from 1-3 goroutines into a processor with Config.MaxTasks 1, 2, 4 or 128 while the "
+                "processor is slow - the n-th CheckParentless call or the n-th HighestLamport call (the inserter) waits for a harness-owned "
+                "gate, or the first calls sleep for drawn 20-200 us - so that the task queues are full when Enqueue is called (Enqueue then "
+                "waits for room); the driver goroutine, which never calls Enqueue, opens the gate when the enqueuing goroutines stopped "
+                "making progress, and everything drains; semaphore ample or smaller than the burst (0-3 ms timeout), Clear() before Stop() or not."),
     level_note=NOTE_COMMON + (" Timing policy: the only real-time waits (arrival of a stored closure, return of Enqueue, the done "
                               "callbacks) have a 60 s deadline and make the case inconclusive, never a violation; whether an Enqueue "
                               "is accepted when the semaphore is short depends on timing and the oracle accepts both outcomes."),
@@ -48,7 +54,14 @@ CONFIG = dict(
           "until the goroutine count is back at its value before Start(), at most 3 ms), the ordering buffer is empty after Stop(), and the "
           "semaphore is back at zero when every copy of every accepted batch was released; per copy at most one Process, parents first. "
           "Non-trivial there = in at least one life Stop() was called before any worker callback was seen and a copy that stayed incomplete in "
-          "the buffer was released by the final Clear of that Stop()."),
+          "the buffer was released by the final Clear of that Stop(). "
+          "TestC15Burst (evaluation = one burst against a fresh processor): every copy of a batch whose Enqueue returned nil is reported released "
+          "exactly once by the time Stop() has returned (after Clear() already, when Clear() is called first); no copy of a batch whose Enqueue "
+          "returned an error is ever handed to Process or reported released, and such a batch does not stay accounted in the semaphore: when every "
+          "Enqueue call has returned and every accepted batch is done, Processing() equals the weight of the accepted copies not released yet, it is "
+          "zero after Clear()/Stop(), and after Clear() the full capacity can be acquired again; Processing() <= capacity inside every callback, no "
+          "inconsistency warning; per copy at most one Process, parents first. Non-trivial there = an Enqueue call that had already acquired its "
+          "weight was seen waiting for room in a full task queue."),
     assumptions=[
         "'accepted' = Enqueue returned nil (ErrBusy when the events semaphore cannot be acquired in time)",
         "the highest known Lamport time is what the harness-owned HighestLamport callback returns (constant, the maximum over processed events, or a drawn schedule that may decrease); "
@@ -59,7 +72,10 @@ CONFIG = dict(
         "such cancelled batches are outside the property and are not generated; the overlap class starts Stop() only when the inserter already holds the last check result of the batch",
         "an event is connected exactly when the harness-owned Exists/Get say so (Process returned nil)",
         "Lamport arithmetic of the rule does not overflow (highest and the buffer limit stay far below 2^31)",
-        "MaxTasks is at least the number of batches (otherwise Enqueue itself blocks on the task queue until the checks complete)",
+        "TestC15Processor/TestC15ShortLived: MaxTasks is at least the number of batches (otherwise Enqueue itself blocks on the task queue until the checks complete); "
+        "TestC15Burst generates the other case and never waits for a blocked Enqueue call from the goroutine that opens the gate",
+        "TestC15Burst: when a gate is opened (after the enqueuing goroutines made no progress for a bounded number of polls) only decides how full the task "
+        "queues get, never a verdict; the processor is stopped only after every Enqueue call has returned and every accepted batch is done",
         "TestC15ShortLived: a batch enqueued right before Stop() may be cancelled by it (the checker or the inserter sees the closed quit channel first); "
         "events of such a batch that the inserter never took are never handled and never released, nothing is claimed for them (class lives_accepted_batch_cancelled_by_stop); "
         "'Stop waits until all the internal goroutines have finished' (doc of Processor.Stop) is taken as the guarantee that no callback runs after Stop() returned; "
@@ -68,5 +84,6 @@ CONFIG = dict(
     units=[
         dict(test="TestC15Processor", quick=1500, thorough=160000, shards=16),
         dict(test="TestC15ShortLived", quick=1500, thorough=160000, shards=16, gomaxprocs=1),
+        dict(test="TestC15Burst", quick=600, thorough=48000, shards=16),
     ],
 )
